@@ -17,7 +17,7 @@ import sys
 import tempfile
 from concurrent.futures import ThreadPoolExecutor
 
-PROPS = [f'C{i:02d}' for i in range(1, 21) if i != 6]
+PROPS = [f'C{i:02d}' for i in range(1, 21)]
 
 
 def sh(cmd, cwd=None, env=None, timeout=3600):
